@@ -15,6 +15,8 @@ def J(x):
 
 
 NONE = ["n"]
+# deviation classes of the unchanged code that the references reproduce (True) or not (False: documented behaviour)
+ACTIVE = {}
 
 
 class BaseRef(object):
@@ -100,8 +102,19 @@ class BaseRef(object):
             self.p_del(k)
             return ["t", [["s", k], x]]
         if name == "update":
-            for kk, vv in v:
-                self.p_set(kk, vv)
+            try:
+                for kk, vv in v:
+                    self.p_set(kk, vv)
+            except RefExc as e:
+                # DictMixin.update: "except AttributeError: for key, value in other" -- an AttributeError raised by
+                # a setter is taken for "other has no items()" and the dict's KEYS are then unpacked as pairs
+                if e.cls != "AttributeError" or not ACTIVE.get("dictmixin-update-masks-attributeerror", True):
+                    raise
+                self.hits.append("dictmixin-update-masks-attributeerror")
+                for kk, vv in v:
+                    if len(kk) != 2:
+                        raise RefExc("ValueError")
+                    self.p_set(kk[0], ["s", kk[1]])
             return NONE
         raise ValueError(name)
 
@@ -500,10 +513,10 @@ for _d, _k in EASYID3_TXXX.items():
 EASYID3_KEYCLASS.update({"genre": ("genre", "TCON"), "date": ("date", "TDRC"), "originaldate": ("date", "TDOR"),
                          "musicbrainz_trackid": ("mbid", "UFID:http://musicbrainz.org"),
                          "website": ("website", "WOAR")})
-GENRE_IDS = {4: "Disco", 5: "Funk", 17: "Rock"}     # the entries of mutagen._constants.GENRES the universe uses
+GENRE_IDS = {0: "Blues", 1: "Classic Rock", 2: "Country", 4: "Disco", 5: "Funk", 17: "Rock"}     # the entries of mutagen._constants.GENRES the universe uses
 
 QUIRKS = ("easyid3-del-absent-website", "easyid3-del-absent-replaygain", "easyid3-wildcard-case",
-          "easyid3-failed-set-mutates", "easyid3-pattern-key-duplicate")
+          "easyid3-failed-set-mutates", "easyid3-pattern-key-duplicate", "dictmixin-update-masks-attributeerror")
 
 
 def date_canon(text):
